@@ -39,6 +39,28 @@ type c09Cyc struct {
 	M    map[string]interface{}
 }
 
+type c09Str string
+
+func (s c09Str) String() string { return string(s) }
+
+type c09Any interface{}
+
+func c09Ints(n int) []interface{} {
+	l := make([]interface{}, n)
+	for i := range l {
+		l[i] = i
+	}
+	return l
+}
+
+func c09TypedInts(n int) []int {
+	l := make([]int, n)
+	for i := range l {
+		l[i] = i
+	}
+	return l
+}
+
 // c09Zoo is one value of (at least) every reflect.Kind plus the odd shapes
 // the property lists, built directly in Go (no Node tree: several of them
 // cannot be described by one).
@@ -89,6 +111,9 @@ func c09Zoo() []zooEntry {
 		{"map-struct-key", map[struct{ A int }]int{{1}: 1}}, {"map-array-key", map[[2]int]int{{1, 2}: 1}}, {"map-ptr-key", map[*int]int{p: 1, nil: 2}}, {"map-complex-key", map[complex128]int{1: 1}},
 		{"map-chan-key", map[chan int]int{ch: 1}}, {"map-uintptr-key", map[uintptr]int{5: 1}}, {"map-named-int-key", map[c09Int]int{5: 1}}, {"map-string-ptr-val", map[string]*int{"abc": p, "n": nil}},
 		{"map-jsonnumber-key", map[json.Number]int{"5": 1}},
+		{"map-stringer-key", map[fmt.Stringer]int{c09Str("abc"): 1}}, {"map-error-key", map[error]int{fmt.Errorf("abc"): 1, nil: 2}}, {"map-stringer-key-empty", map[fmt.Stringer]int{}},
+		{"map-named-iface-key", map[c09Any]int{"abc": 1, 5: 2}}, {"slice-stringer", []fmt.Stringer{c09Str("abc"), nil}}, {"slice-error", []error{fmt.Errorf("abc")}},
+		{"list-65", c09Ints(65)}, {"list-64", c09Ints(64)}, {"list-66-typed", c09TypedInts(66)}, {"array-70", [70]int{69: 5}},
 		{"jsonnumber-int", json.Number("5")}, {"jsonnumber-float", json.Number("1.5")}, {"jsonnumber-bad", json.Number("abc")}, {"jsonnumber-huge", json.Number("1e999")}, {"jsonnumber-empty", json.Number("")},
 		{"ptr-jsonnumber", func() *json.Number { n := json.Number("5"); return &n }()},
 		{"typed-nil-in-iface", interface{}(nilp)}, {"cyclic-struct", cyc}, {"cyclic-map", cycMap}, {"cyclic-slice", cycSlice},
